@@ -5,6 +5,7 @@ from props.m2common import g, g1, sx, rng_for, fl, close, same, is_err, env_poin
 from props.C07 import sec_env, simpson
 
 PID = "C13"
+KERNELS = ['K_tempo_seconds']   # translated from /repo on every run, tied to the model by coq/Gen/<name>_eq.v
 RUNNER = "impl_m2.py"
 N = {"quick": 700, "thorough": 25000}
 LEVEL_RULE = ("event trees (depth <= 3, sequences and simultaneities) whose nodes (leaves included) carry a tempo: constant tempi on a "
